@@ -37,3 +37,11 @@ uint32_t fx_bytes_ok(struct fx_ctx *c) {
 uint32_t fx_param_ok(const uint8_t *p) {
 	return (((const uint32_t*)(const void*)p)[0]);
 }
+
+/* record pointer casts */
+struct fx_hdr { unsigned char code; unsigned char id; unsigned short len; };
+struct fx_iobuf { unsigned char *data; unsigned long size; };
+struct fx_task { struct fx_hdr h; int x; };
+int fx_reccast_ok(struct fx_iobuf *buf, struct fx_task *t) { return (((struct fx_hdr *)buf->data)->code + ((struct fx_hdr *)t)->id); }
+/* violation: the buffer object itself is read as a packet header */
+int fx_reccast_bad(struct fx_iobuf *buf) { return (((struct fx_hdr *)buf)->code); }
